@@ -65,11 +65,12 @@ type aNode struct {
 }
 
 type aEntry struct {
-	key   string
-	merge []string // non-nil: this entry is `<<: *a` (len 1, single) or `<<: [*a, *b]`
-	refs  []*aNode // the nodes those names are bound to at this point of the text
-	list  bool
-	v     *aNode
+	key       string
+	keyAnchor string   // `&name key: v`: an anchor on the KEY node (never aliased; explode must still strip it)
+	merge     []string // non-nil: this entry is `<<: *a` (len 1, single) or `<<: [*a, *b]`
+	refs      []*aNode // the nodes those names are bound to at this point of the text
+	list      bool
+	v         *aNode
 }
 
 type c13Gen struct {
@@ -81,6 +82,7 @@ type c13Gen struct {
 	redefs  int
 	overlap bool
 	aliases int
+	keyAnch int
 }
 
 var c13Keys = []string{"x", "y", "z", "k", "j"}
@@ -134,7 +136,12 @@ func (g *c13Gen) mapNode(depth int, allowMerge bool) *aNode {
 				continue
 			}
 			used[k] = true
-			n.entries = append(n.entries, aEntry{key: k, v: g.value(depth)})
+			e := aEntry{key: k, v: g.value(depth)}
+			if r.IntN(8) == 0 {
+				g.keyAnch++
+				e.keyAnchor = fmt.Sprintf("ka%d", g.keyAnch)
+			}
+			n.entries = append(n.entries, e)
 		}
 	}
 	addKeys(r.IntN(3))
@@ -292,7 +299,11 @@ func (n *aNode) emitEntries(sb *strings.Builder, indent int) {
 			}
 			continue
 		}
-		sb.WriteString(pad + e.key + ":")
+		if e.keyAnchor != "" {
+			sb.WriteString(pad + "&" + e.keyAnchor + " " + e.key + ":")
+		} else {
+			sb.WriteString(pad + e.key + ":")
+		}
 		e.v.emitValue(sb, indent+1)
 	}
 }
@@ -448,6 +459,9 @@ func (p c13) Run(w *mon.Worker, idx int) mon.Result {
 	if g.redefs > 0 {
 		res.Tags = append(res.Tags, "anchor_redefined")
 	}
+	if g.keyAnch > 0 {
+		res.Tags = append(res.Tags, "anchor_on_key")
+	}
 
 	type route struct {
 		name   string
@@ -530,7 +544,7 @@ func (p c13) Run(w *mon.Worker, idx int) mon.Result {
 	}
 	for _, ln := range strings.Split(yout, "\n") {
 		t := strings.TrimSpace(ln)
-		if strings.HasPrefix(t, "<<:") || strings.Contains(t, ": *") || strings.Contains(t, ": &") || strings.HasPrefix(t, "- *") || strings.HasPrefix(t, "- &") || strings.HasSuffix(t, ": &") {
+		if strings.HasPrefix(t, "<<:") || strings.HasPrefix(t, "&") || strings.HasPrefix(t, "*") || strings.HasPrefix(t, "- &ka") || strings.Contains(t, ": *") || strings.Contains(t, ": &") || strings.HasPrefix(t, "- *") || strings.HasPrefix(t, "- &") || strings.HasSuffix(t, ": &") {
 			return fail("explode(.) left an alias, anchor or merge key behind: %q\n%s", ln, yout)
 		}
 	}
@@ -839,7 +853,6 @@ func without(xs []string, x string) []string {
 	return out
 }
 
-
 // c13ASTAt follows a path of explicit keys / positions through the generator tree (nil when a step goes
 // through an alias or a merged-in key: those are not sub-trees of the text at that place).
 func c13ASTAt(n *aNode, pth []any) *aNode {
@@ -882,7 +895,7 @@ func c13HasAnchor(n *aNode) bool {
 		}
 	}
 	for _, e := range n.entries {
-		if c13HasAnchor(e.v) {
+		if e.keyAnchor != "" || c13HasAnchor(e.v) {
 			return true
 		}
 	}
